@@ -2,7 +2,7 @@
 """Evaluate seeded mutants: confirm each (suite passes, demo fails with / passes without the patch),
 run the property's check against it, store it under /verif/seeded/<ID>_<n>/.
 
-usage: tools/seed_eval.py <src_dir> [ID ...]      src_dir contains <ID>/patchN.diff, demoN.py, NOTES.md
+usage: tools/seed_eval.py <src_dir> [--offset K] [ID ...]   (stored as <ID>_<n+K>)      src_dir contains <ID>/patchN.diff, demoN.py, NOTES.md
 """
 import json
 import os
@@ -22,14 +22,19 @@ def sh(cmd, cwd=None, env=None, timeout=3600):
 
 def main():
     src = sys.argv[1]
-    ids = sys.argv[2:] or sorted(d for d in os.listdir(src) if d.startswith('C') and os.path.isdir(os.path.join(src, d)))
+    args = sys.argv[2:]
+    offset = 0
+    if args and args[0] == '--offset':
+        offset = int(args[1])
+        args = args[2:]
+    ids = args or sorted(d for d in os.listdir(src) if d.startswith('C') and os.path.isdir(os.path.join(src, d)))
     for pid in ids:
-        for n in (1, 2, 3):
+        for n in (1, 2, 3, 4):
             patch = os.path.join(src, pid, 'patch%d.diff' % n)
             demo = os.path.join(src, pid, 'demo%d.py' % n)
             if not os.path.exists(patch):
                 continue
-            out = os.path.join(HERE, 'seeded', '%s_%d' % (pid, n))
+            out = os.path.join(HERE, 'seeded', '%s_%d' % (pid, n + offset))
             meta = {'property': pid, 'source': 'independent sub-agent given only the property text and a scratch worktree',
                     'base_commit': sh('git -C /repo rev-parse --short HEAD')[1].strip()}
             wt = tempfile.mkdtemp(prefix='sv_seed_wt_')
